@@ -38,7 +38,7 @@ ASSUMPTIONS = ['astropy.table / astropy.io.fits are trusted to store and return 
 CAT = ['point', 'circle', 'ellipse', 'circleannulus', 'ellipseannulus', 'rotbox', 'box', 'poly3', 'poly5', 'regpoly']
 NONREP = ['sky_circle', 'line', 'text', 'rectangleannulus', 'compound']
 INC_PATTERNS = ['absent', 'all_false', 'alt_False_True', 'alt_0_1', 'first_false']
-COMP_PATTERNS = ['absent', 'all', 'partial', 'partial_first']
+COMP_PATTERNS = ['absent', 'all', 'partial', 'partial_first', 'partial_desc', 'partial_mixed', 'all_desc']
 
 
 def make(name, include='absent', component=None):
@@ -109,6 +109,12 @@ def _comp_for(pattern, k):
         return (5 + k) if k % 2 == 1 else None
     if pattern == 'partial_first':
         return 4 if k == 0 else None
+    if pattern == 'partial_desc':       # given numbers decrease along the list: 9, -, 7, -, 5, ...
+        return (9 - k) if k % 2 == 0 else None
+    if pattern == 'partial_mixed':      # 6, -, 4, -, -, ...: the largest given number is not the last given one
+        return {0: 6, 2: 4}.get(k)
+    if pattern == 'all_desc':
+        return 40 - 3 * k
     raise ValueError(pattern)
 
 
@@ -343,7 +349,7 @@ READ_NAMES = list(READ_CASES) + ['no_shape_column', 'invalid_shape', 'invalid_co
 def list_cases(tier):
     out = []
     incs = ['absent', 'all_false', 'alt_0_1'] if tier == 'quick' else INC_PATTERNS
-    comps = ['absent', 'all', 'partial'] if tier == 'quick' else COMP_PATTERNS
+    comps = ['absent', 'all', 'partial', 'partial_desc', 'partial_mixed'] if tier == 'quick' else COMP_PATTERNS
     media = ['memory', 'file'] if tier == 'quick' else ['memory', 'file', 'file_region']
     maxlen = 2 if tier == 'quick' else 3
     lists = []
